@@ -85,6 +85,7 @@ func (cs *ConnectionState) MarshalJSON() ([]byte, error) {
 // NextMessageCounter reserves the next 1-based counter; RejectAfterMessages is the first we refuse, pinned to not wrap.
 func (cs *ConnectionState) NextMessageCounter() (uint64, bool) {
 	c := cs.messageCounter.Add(1)
+	verifYield("counter:added")
 	if c >= RejectAfterMessages {
 		cs.messageCounter.Store(RejectAfterMessages)
 		return c, false
@@ -104,10 +105,12 @@ func (cs *ConnectionState) Decrypt(l *slog.Logger, messageCounter uint64, packet
 		return nil, ErrAlreadySeen
 	}
 
+	verifYield("decrypt:checked")
 	out, err := cs.dKey.DecryptDanger(packet[header.Len:header.Len], packet[:header.Len], packet[header.Len:], messageCounter, nb)
 	if err != nil {
 		return nil, err
 	}
+	verifYield("decrypt:decrypted")
 
 	cs.decryptLock.Lock()
 	result = cs.window.Update(l, messageCounter)
@@ -133,10 +136,12 @@ func (cs *ConnectionState) VerifyRelay(l *slog.Logger, messageCounter uint64, pa
 	// which will gracefully fail in the DecryptDanger call.
 	signedPayload := packet[:len(packet)-cs.dKey.Overhead()]
 	signatureValue := packet[len(packet)-cs.dKey.Overhead():]
+	verifYield("verifyrelay:checked")
 	_, err := cs.dKey.DecryptDanger(nil, signedPayload, signatureValue, messageCounter, nb)
 	if err != nil {
 		return err
 	}
+	verifYield("verifyrelay:verified")
 
 	cs.decryptLock.Lock()
 	result = cs.window.Update(l, messageCounter)
